@@ -339,17 +339,14 @@ theorem Key.eqv_eq {k key : Key} (h : Key.eqv false k key = true) : k = key := b
   have := keyEqList_eq _ _ h2
   cases k; cases key; simp_all
 
-theorem buildGate_sim (cfg : Config) (ctx : Ctx) (f : Nat) (args : List BSx) (st st' : St)
+theorem buildGateMemo_sim (cfg : Config) (ctx : Ctx) (f : Nat) (name : String) (gargs : List BSx) (st st' : St)
     (hg : st.gctx = st'.gctx) (hm : MemoOK cfg st.memo st.gctx)
-    (hd : BSx.depthList args ≤ f) :
-    Sim cfg st.gctx (buildGate cfg .new ctx (buildVal ctx f) args st)
-      (buildGate cfg .off ctx (buildVal ctx f) args st') := by
-  unfold buildGate
-  match args, hd with
-  | [], _ => simp [throw_eq]
-  | .str name :: gargs, hd =>
-    simp only [BSx.depthList, BSx.depth] at hd
-    have hd' : BSx.depthList gargs ≤ f := Nat.le_trans (Nat.le_max_right _ _) hd
+    (hd' : BSx.depthList gargs ≤ f) :
+    Sim cfg st.gctx (buildGateMemo cfg .new ctx (buildVal ctx f) name gargs st)
+      (buildGateMemo cfg .off ctx (buildVal ctx f) name gargs st') := by
+  unfold buildGateMemo
+  match name, gargs, hd' with
+  | name, gargs, hd' =>
     simp only [show (KeyMode.new = KeyMode.off) = False from by simp, if_false, if_true]
     simp only [KeyMode.numByValue]
     cases hf : Memo.find false st.memo (mkKey .new ctx name gargs) with
@@ -392,6 +389,23 @@ theorem buildGate_sim (cfg : Config) (ctx : Ctx) (f : Nat) (args : List BSx) (st
             simp only [hmv, bind, Except.bind] at hcall
             simp [bind, Except.bind, hcall, pure, Except.pure]
         · exact (hm k s' hks).ext hx
+
+theorem buildGate_sim (cfg : Config) (ctx : Ctx) (f : Nat) (args : List BSx) (st st' : St)
+    (hg : st.gctx = st'.gctx) (hm : MemoOK cfg st.memo st.gctx)
+    (hd : BSx.depthList args ≤ f) :
+    Sim cfg st.gctx (buildGate cfg .new ctx (buildVal ctx f) args st)
+      (buildGate cfg .off ctx (buildVal ctx f) args st') := by
+  unfold buildGate
+  match args, hd with
+  | [], _ => simp [throw_eq]
+  | .str name :: gargs, hd =>
+    simp only [BSx.depthList, BSx.depth] at hd
+    have hd' : BSx.depthList gargs ≤ f := Nat.le_trans (Nat.le_max_right _ _) hd
+    simp only []
+    rw [← hg]
+    cases nestingCheck ctx st.gctx name with
+    | error e => exact Sim.err cfg st.gctx e
+    | ok u => exact buildGateMemo_sim cfg ctx f name gargs st st' hg hm hd'
   | .int _ :: _, _ | .flt _ :: _, _ | .none :: _, _ | .list _ :: _, _ | .val _ :: _, _ => simp [throw_eq]
 
 theorem mapMSt_sim (cfg : Config) {fA fA' : BSx → St → M (Obj × St)} : ∀ (l : List BSx),
